@@ -20,8 +20,9 @@ def _case(draw, worlds):
     method = draw(st.sampled_from(['eigen', 'eigen', 'inverse']))
     prediv = draw(st.booleans()) if method == 'eigen' else False
     kl = draw(st.one_of(st.sampled_from(KL_VALUES), st.sampled_from(KL_VALUES),
-                        st.lists(st.sampled_from(KL_VALUES), min_size=2, max_size=4).map(lambda t: {'table': t})))
-    lr = draw(gens.table_or_const(LR_VALUES))
+                        st.lists(st.sampled_from(KL_VALUES), min_size=2, max_size=4).map(lambda t: {'table': t}),
+                        st.lists(st.sampled_from(KL_VALUES[:-1]), min_size=2, max_size=4).map(lambda t: {'live': t})))
+    lr = draw(st.one_of(gens.table_or_const(LR_VALUES), st.lists(st.sampled_from(LR_VALUES), min_size=2, max_size=4).map(lambda t: {'live': t})))
     return {'W': W, 'k': k, 'fraction': 'float', 'colocate': True if (method == 'eigen' and prediv) else draw(st.booleans()),
             'heuristic': 'compute', 'cap': draw(st.sampled_from([0, 25.0])), 'symmetry': False,
             'method': method, 'prediv': prediv, 'spec': draw(gens.model_spec(max_layers=3, max_dim=6, max_out=5)),
@@ -37,7 +38,10 @@ def _case(draw, worlds):
 
 
 def _at(v, step):
-    return v['table'][step % len(v['table'])] if isinstance(v, dict) else v
+    if isinstance(v, dict):
+        t = v.get('table') or v.get('live')      # 'live': value of training iteration `step` (programs here are train ops only)
+        return t[step % len(t)]
+    return v
 
 
 @st.composite
@@ -61,7 +65,7 @@ class C07(Prop):
     id = 'C07'
     title = 'KL clipping bounds the update and only rescales it'
     rule = ('Hypothesis draws W in {1,1,2,4} (thorough adds 3,6,8) with every divisor as gradient-worker count, a model of 1-3 layers, both '
-            'methods, damping, lr constant or table (incl. 0), kl_clip constant, table, None or a table containing None, data style incl. '
+            'methods, damping, lr constant or table (incl. 0), kl_clip constant, table, None or a table containing None, lr / kl_clip also as callables reading live state that the loop changes between iterations (the documented optimizer-lr idiom), data style incl. '
             'all-zero gradients, float32/float64 parameters, 1-4 steps with gradient-independent weight drift. The identical case is run twice on '
             'the real preconditioner (world of one, or simulated ranks with a drawn schedule): once with kl_clip=1e30 to obtain V and once as '
             'drawn. nu_pred = min(1, sqrt(kl/|sum <V,D> lr^2|)) in float64 (1 if the sum is 0 or kl is None). Checked per step: every layer\'s '
@@ -73,7 +77,7 @@ class C07(Prop):
     examples = {'quick': 120, 'thorough': 500}
     shards = {'quick': 4, 'thorough': 16}
     shrink_budget_s = {'quick': 30.0, 'thorough': 180.0}
-    required_labels = {'quick': ['nontrivial=True', 'kl_none=True', 'clip_active=True', 'zero_grad=True', 'multi_rank=True', 'pipe=2'],
+    required_labels = {'quick': ['nontrivial=True', 'kl_none=True', 'clip_active=True', 'zero_grad=True', 'multi_rank=True', 'pipe=2', 'live_hp=True'],
                        'thorough': ['nontrivial=True', 'kl_none=True', 'clip_active=True', 'zero_grad=True', 'multi_rank=True', 'lr_zero=True']}
 
     def strategy(self, tier):
@@ -173,7 +177,8 @@ class C07(Prop):
         program = [{'op': 'train', 'seed': case['data_seed'] + t} for t in range(case['steps'])]
         labels = {'W': W, 'multi_rank': W > 1, 'method': case['method'], 'prediv': case['prediv'],
                   'strategy': 'COMM' if case['k'] == W else 'MEM' if case['k'] == 1 else 'HYBRID',
-                  'kl_kind': 'table' if isinstance(case['hp']['kl_clip'], dict) else str(case['hp']['kl_clip'] is None and 'None' or 'const')}
+                  'kl_kind': 'table' if isinstance(case['hp']['kl_clip'], dict) else str(case['hp']['kl_clip'] is None and 'None' or 'const'),
+                  'live_hp': any(isinstance(case['hp'][k], dict) and 'live' in case['hp'][k] for k in ('kl_clip', 'lr'))}
         unclipped = copy.deepcopy(case)
         unclipped['hp']['kl_clip'] = 1e30
 
